@@ -206,6 +206,7 @@ impl Check for C13 {
             Phase { name: "API agreement on mutated / rejected inputs", cases: scale(if q { 20000 } else { 600000 }, b), exhaustive: false },
             Phase { name: "encode direction: to_vec vs serialise(to_cbor_value), tagged likewise", cases: scale(if q { 20000 } else { 600000 }, b), exhaustive: false },
             Phase { name: "all byte strings of length <= 2: API agreement at every entry point", cases: 65536 + 256 + 1, exhaustive: true },
+            Phase { name: "boundaries: CBOR nesting depth 240-262 in an extra value (both API layers), inputs of 1 MiB +- 1 and 2 MiB with suffixes, tagged API agreement incl. tag numbers aliasing under truncation", cases: 23 + 4 + 6, exhaustive: true },
         ]
     }
     fn run_case(&self, ctx: &mut Ctx, phase: usize, idx: u64) {
@@ -284,6 +285,59 @@ impl Check for C13 {
                     }
                 }
                 encode_agreement(ctx, &v);
+            }
+            6 => {
+                if idx < 23 {
+                    let d = 240 + idx as usize;
+                    for kind in 0..3u8 {
+                        let mut h = vec![0xa1, 0x0a];
+                        h.extend_from_slice(&crate::hostile::b4_nested(d, kind));
+                        ctx.nontrivial_bytes(&h);
+                        for ty in [Ty::Header, Ty::ProtMap, Ty::Key, Ty::Claims] {
+                            api_agreement(ctx, ty, &h);
+                        }
+                        let (ty, m) = crate::hostile::carry_header(2, &h);
+                        api_agreement(ctx, ty, &m);
+                        if capi::from_slice(ty, &m).is_ok() {
+                            ctx.count("deep-accepted");
+                        }
+                    }
+                } else if idx < 27 {
+                    let n = [(1usize << 20) - 1, 1 << 20, (1 << 20) + 1, 2 << 20][(idx - 23) as usize];
+                    let mut b = vec![0x84, 0x40, 0xa0];
+                    rcbor::put_head(&mut b, 2, n as u64, &mut Style::canonical());
+                    b.extend(std::iter::repeat(0x33).take(n));
+                    b.push(0x40);
+                    if capi::from_slice(Ty::Sign1, &b).is_ok() {
+                        one_item_only(ctx, Ty::Sign1, &b, false);
+                        let mut tb = vec![0xd2];
+                        tb.extend_from_slice(&b);
+                        if capi::from_tagged_slice(Ty::Sign1, &tb).is_ok() {
+                            one_item_only(ctx, Ty::Sign1, &tb, true);
+                        }
+                    } else {
+                        ctx.harness_errors.push("C13: large Sign1 not accepted".into());
+                    }
+                } else {
+                    // tagged entry point vs Value-level: parse, take the tag apart, convert
+                    let ty = TAGGED_TYPES[(idx - 27) as usize];
+                    let v = gen::gen_mval(&mut ctx.rng, ty, &GenOpts::wire());
+                    let body = model::encode(&v);
+                    let t = ty.tag().unwrap();
+                    for tag in [t, t + 1, t + (1 << 8), t + (1 << 16), t + (1 << 32), t + (3 << 32), u64::MAX - (u32::MAX as u64) + t, 55799, 0] {
+                        ctx.eval();
+                        let x = rcbor::det(&Item::Tag(tag, Box::new(body.clone())));
+                        ctx.nontrivial_bytes(&x);
+                        let a = capi::from_tagged_slice(ty, &x);
+                        let b = match capi::ciborium_parse_exact(&x) {
+                            Ok(Value::Tag(n, inner)) if n == capi::crate_tag(ty) => capi::from_value(ty, *inner),
+                            _ => Err(EK::Unexpected),
+                        };
+                        if a.is_ok() != b.is_ok() {
+                            ctx.violation(&format!("C13/api-layers-disagree/tagged-decode/{}", ty.name()), format!("from_tagged_slice {} but parse + tag check + from_cbor_value {} for tag {}", if a.is_ok() { "accepts" } else { "rejects" }, if b.is_ok() { "accepts" } else { "rejects" }, tag), J::obj(vec![("hex", J::Str(hex(&x)))]));
+                        }
+                    }
+                }
             }
             _ => {
                 let b: Vec<u8> = if idx == 0 {
